@@ -314,28 +314,39 @@ def int_to_str(ex, st, v):
         return str_const(str(c).encode())
     if v.signed:
         unmodelled('Display of symbolic signed integer')
-    # unsigned symbolic: decimal digits, up to 10 digits (u32) / 20 (u64): bounded by width
+    if getattr(v, 'dec', None) is not None:
+        # the integer is the value of the decimal digit string `dec`: its canonical spelling is dec without leading zeros
+        d = v.dec
+        k = bv(0)
+        still = z3.BoolVal(True)
+        for i in range(d.cap):
+            lead = z3.And(still, z3.ULT(bv(i) + 1, d.n), d.bytes[i] == 48)
+            k = z3.If(lead, bv(i + 1), k)
+            still = lead
+        ex.models_used.add('u32::to_string of a parsed decimal: digit string without leading zeros (structural)')
+        return s_substr(d, k, d.n - k)
+    # unsigned symbolic: decimal digits as fresh variables tied to x by the (total, functional) positional-notation
+    # lemma  x == sum d_k * 10^k,  d_k <= 9  - cheaper for the solver than division by constants
     ndig = {8: 3, 16: 5, 32: 10, 64: 20}[v.width]
     w = v.width
-    x = v.e
-    digs = []  # least significant first
-    pw = 1
+    ww = w + 8
+    x = z3.ZeroExt(8, v.e)
+    digs = [z3.BitVec(fresh_name('dig%d' % k), 8) for k in range(ndig)]   # least significant first
+    acc = z3.BitVecVal(0, ww)
     for k in range(ndig):
-        digs.append(z3.Extract(7, 0, z3.URem(z3.UDiv(x, z3.BitVecVal(pw, w)), z3.BitVecVal(10, w))) + 48)
-        pw *= 10
-    # number of digits
+        st.assume(z3.ULE(digs[k], 9))
+        acc = acc + z3.ZeroExt(ww - 8, digs[k]) * z3.BitVecVal(10 ** k, ww)
+    # no wrap-around: the top digit is bounded so that the sum fits in ww bits (ndig digits of 9 need < 2^(w+8))
+    st.assume(acc == x)
     n = z3.BitVecVal(1, LW)
-    pw = 10
     for k in range(1, ndig):
-        if pw < (1 << w):
-            n = z3.If(z3.UGE(x, z3.BitVecVal(pw, w)), z3.BitVecVal(k + 1, LW), n)
-        pw *= 10
-    # bytes[j] = digs[n-1-j]
+        n = z3.If(digs[k] != 0, z3.BitVecVal(k + 1, LW), n)
+    # bytes[j] = '0' + digs[n-1-j]
     bs = []
     for j in range(ndig):
         e = z3.BitVecVal(0, 8)
         for k in range(ndig):
-            e = z3.If(n - 1 - bv(j) == bv(k), digs[k], e)
+            e = z3.If(n - 1 - bv(j) == bv(k), digs[k] + 48, e)
         bs.append(e)
     return Str(n, bs)
 
@@ -1640,3 +1651,480 @@ def m_is_none_or(ex, st, call):
 
 
 _prioritise({'m_is_none_or'})
+
+
+# ------------------------------------------------------------------------------------------------
+# str::bytes / str::parse::<u32> / u8 helpers
+# ------------------------------------------------------------------------------------------------
+@model(r'^str::bytes$')
+def m_str_bytes(ex, st, call):
+    s = deref(ex, st, call.args[0])
+    if not isinstance(s, Str):
+        return None
+    return ex.ret(st, call, Agg('iter', 'Bytes', {0: s, 1: 0}))
+
+
+@model(r'^<Bytes as Iterator>::next$|^<Bytes<.*> as Iterator>::next$')
+def m_bytes_next(ex, st, call):
+    r = call.args[0]
+    it = deref(ex, st, r)
+    if not (isinstance(it, Agg) and it.ty == 'Bytes'):
+        return None
+    s, pos = it.fields[0], it.fields[1]
+    if pos >= s.cap:
+        return ex.ret(st, call, ex.none())
+    ex.store(st, r.addr, r.path, Agg('iter', 'Bytes', {0: s, 1: pos + 1}))
+    return ex.ret(st, call, ex.option_ite(z3.ULT(bv(pos), s.n), Int(s.bytes[pos], False)))
+
+
+@model(r'^u8::is_ascii_digit$')
+def m_is_ascii_digit(ex, st, call):
+    b = deref(ex, st, call.args[0])
+    return ex.ret(st, call, Bool(z3.And(z3.UGE(b.e, 48), z3.ULE(b.e, 57))))
+
+
+@model(r'^str::parse$|^JsString::parse$')
+def m_str_parse(ex, st, call):
+    s = deref(ex, st, call.args[0])
+    if isinstance(s, Opaque) and ('jsstr', str(s.id)) in st.extra:
+        s = st.extra[('jsstr', str(s.id))]
+    ty = call.generics[-1][0] if call.generics else None
+    if not isinstance(s, Str) or ty not in ('u32',):
+        return None
+    # u32::from_str: optional leading '+', then one or more ASCII digits, value <= u32::MAX
+    plus = z3.And(z3.UGE(s.n, 1), s.bytes[0] == 43) if s.cap > 0 else z3.BoolVal(False)
+    start = z3.If(plus, bv(1), bv(0))
+    ok = z3.UGT(s.n, start)
+    val = z3.BitVecVal(0, 64)
+    over = z3.BoolVal(False)
+    for i in range(s.cap):
+        active = z3.And(z3.ULT(bv(i), s.n), z3.UGE(bv(i), start))
+        isd = z3.And(z3.UGE(s.bytes[i], 48), z3.ULE(s.bytes[i], 57))
+        ok = z3.And(ok, z3.Or(z3.Not(active), isd))
+        nv = val * 10 + z3.ZeroExt(56, s.bytes[i] - 48)
+        over = z3.Or(over, z3.And(active, z3.UGT(nv, z3.BitVecVal(0xFFFFFFFF, 64))))
+        # keep val bounded once overflowed so that 64 bits never wrap (cap may exceed 19 digits)
+        val = z3.If(active, z3.If(z3.UGT(nv, z3.BitVecVal(0xFFFFFFFF, 64)), z3.BitVecVal(0x100000000, 64), nv), val)
+    good = z3.And(ok, z3.Not(over))
+    d = z3.If(good, z3.BitVecVal(0, 64), z3.BitVecVal(1, 64))
+    digits = s_substr(s, start, s.n - start)
+    return ex.ret(st, call, EnumV('Result', d, {0: {0: Int(z3.Extract(31, 0, val), False, dec=digits)}, 1: {0: Opaque('ParseIntError', 0)}}))
+
+
+# ------------------------------------------------------------------------------------------------
+# more str / String API (bounded ASCII strings)
+# ------------------------------------------------------------------------------------------------
+def _pat_byte(ex, st, p):
+    if isinstance(p, Char):
+        return as_byte(ex, p)
+    return None
+
+
+def _tuple2(a, b):
+    return Agg('tuple', 'tuple', {0: a, 1: b})
+
+
+@model(r'^str::rsplit_once$|^str::split_once$')
+def m_split_once(ex, st, call):
+    s = deref(ex, st, call.args[0])
+    b = _pat_byte(ex, st, call.args[1])
+    if b is None or not isinstance(s, Str):
+        return None
+    f, i = (s_rfind_byte if 'rsplit' in call.norm else s_find_byte)(s, b)
+    left = Str(i, s.bytes)
+    right = s_substr(s, i + 1, s.n - i - 1)
+    return ex.ret(st, call, ex.option_ite(f, _tuple2(left, right)))
+
+
+@model(r'^str::strip_prefix$|^str::strip_suffix$')
+def m_strip_affix(ex, st, call):
+    s = deref(ex, st, call.args[0])
+    p = call.args[1]
+    if isinstance(p, Char):
+        p = Str(bv(1), [as_byte(ex, p)])
+    else:
+        p = deref(ex, st, p)
+    if not (isinstance(s, Str) and isinstance(p, Str)):
+        return None
+    if 'prefix' in call.norm:
+        return ex.ret(st, call, ex.option_ite(s_starts_with(s, p), s_substr(s, p.n, s.n - p.n)))
+    return ex.ret(st, call, ex.option_ite(s_ends_with(s, p), Str(s.n - p.n, s.bytes)))
+
+
+@model(r'^str::trim_end_matches$|^str::trim_start_matches$|^str::trim_matches$')
+def m_trim_matches(ex, st, call):
+    s = deref(ex, st, call.args[0])
+    b = _pat_byte(ex, st, call.args[1])
+    if b is None or not isinstance(s, Str):
+        return None
+    lo = bv(0)
+    hi = s.n
+    if 'trim_end' not in call.norm:
+        still = z3.BoolVal(True)
+        for i in range(s.cap):
+            hit = z3.And(still, z3.ULT(bv(i), s.n), s.bytes[i] == b)
+            lo = z3.If(hit, bv(i + 1), lo)
+            still = hit
+    if 'trim_start' not in call.norm:
+        # longest suffix of b's (not overlapping the trimmed prefix)
+        still = z3.BoolVal(True)
+        cnt = bv(0)
+        for k in range(s.cap):
+            idx = s.n - 1 - bv(k)
+            hit = z3.And(still, z3.ULT(bv(k), s.n - lo), s_at(s, idx) == b)
+            cnt = z3.If(hit, bv(k + 1), cnt)
+            still = hit
+        hi = s.n - cnt
+    return ex.ret(st, call, s_substr(s, lo, hi - lo))
+
+
+@model(r'^str::is_char_boundary$')
+def m_is_char_boundary(ex, st, call):
+    s = deref(ex, st, call.args[0])
+    i = call.args[1]
+    return ex.ret(st, call, Bool(z3.ULE(i.e, z3.ZeroExt(64 - LW, s.n))))
+
+
+@model(r'^<str as Index<Range(To|From|Full|Inclusive|ToInclusive)?<usize>>>::index$|^str::index::<impl Index<.*> for str>::index$|^<String as Index<Range(To|From)?<usize>>>::index$')
+def m_str_index(ex, st, call):
+    s = deref(ex, st, call.args[0])
+    r = call.args[1]
+    if not (isinstance(r, Agg) and isinstance(s, Str)):
+        return None
+    from .symex import PathEnd
+    n64 = z3.ZeroExt(64 - LW, s.n)
+    if r.ty.startswith('RangeTo'):
+        ok = z3.ULE(r.fields[0].e, n64)
+        val = s_substr(s, bv(0), to_lw(r.fields[0]))
+    elif r.ty.startswith('RangeFrom'):
+        ok = z3.ULE(r.fields[0].e, n64)
+        val = s_substr(s, to_lw(r.fields[0]), s.n - to_lw(r.fields[0]))
+    else:
+        a, b = r.fields[0], r.fields[1]
+        ok = z3.And(z3.ULE(a.e, b.e), z3.ULE(b.e, n64))
+        val = s_substr(s, to_lw(a), to_lw(b) - to_lw(a))
+    good, bad = ex.split(st, ok)
+    out = []
+    if bad is not None:
+        out.append(PathEnd('panic', bad, None, 'string slice index out of range'))
+    if good is not None:
+        out += ex.ret(good, call, val)
+    return out
+
+
+@model(r'^String::push_str$')
+def m_push_str(ex, st, call):
+    r, p = call.args
+    s = deref(ex, st, r)
+    p = deref(ex, st, p)
+    if isinstance(s, Str) and isinstance(p, Str):
+        ex.store(st, r.addr, r.path, s_concat2(s, p))
+        return ex.ret(st, call, UNIT)
+    return None
+
+
+@model(r'^String::push$')
+def m_push_char(ex, st, call):
+    r, c = call.args
+    s = deref(ex, st, r)
+    if isinstance(s, Str) and isinstance(c, Char):
+        ex.store(st, r.addr, r.path, s_concat2(s, Str(bv(1), [as_byte(ex, c)])))
+        return ex.ret(st, call, UNIT)
+    return None
+
+
+@model(r'^String::with_capacity$')
+def m_string_with_capacity(ex, st, call):
+    return ex.ret(st, call, str_const(b''))
+
+
+@model(r'^String::truncate$')
+def m_string_truncate(ex, st, call):
+    r, n = call.args
+    s = deref(ex, st, r)
+    if isinstance(s, Str):
+        k = to_lw(n)
+        ex.store(st, r.addr, r.path, Str(z3.If(z3.ULT(k, s.n), k, s.n), s.bytes))
+        return ex.ret(st, call, UNIT)
+    return None
+
+
+@model(r'^String::pop$')
+def m_string_pop(ex, st, call):
+    r = call.args[0]
+    s = deref(ex, st, r)
+    if isinstance(s, Str):
+        last = s_at(s, s.n - 1)
+        ex.store(st, r.addr, r.path, Str(z3.If(s.n == 0, bv(0), s.n - 1), s.bytes))
+        return ex.ret(st, call, ex.option_ite(s.n != 0, Char(z3.ZeroExt(24, last))))
+    return None
+
+
+@model(r'^<String as Add<&str>>::add$')
+def m_string_add(ex, st, call):
+    a, b = call.args
+    b = deref(ex, st, b)
+    if isinstance(a, Str) and isinstance(b, Str):
+        return ex.ret(st, call, s_concat2(a, b))
+    return None
+
+
+@model(r'^<Split<char> as Iterator>::collect$|^<Split<.*char> as Iterator>::collect$')
+def m_split_collect(ex, st, call):
+    it = call.args[0]
+    if not (isinstance(it, Agg) and it.ty == 'Split'):
+        return None
+    s, fin, d, pos = it.fields[0], it.fields[1], it.fields[2], it.fields[3]
+    out = []
+
+    def go(state, pos_, items, depth):
+        if depth > ex.unwind:
+            from .symex import PathEnd
+            return [PathEnd('bound', state, None, 'split(..).collect(): more pieces than the unwinding bound')]
+        f, i = s_find_byte(s, d, start=pos_)
+        end = z3.If(f, i, s.n)
+        piece = s_substr(s, pos_, end - pos_)
+        return two_way(ex, state, f, lambda s2: go(s2, z3.simplify(i + 1), items + [piece], depth + 1),
+                       lambda s2: ex.ret(s2, call, VecV(items + [piece], '&str')))
+    return go(st, pos, [], 0)
+
+
+@model(r'^Vec::insert$')
+def m_vec_insert(ex, st, call):
+    r, i, x = call.args
+    v = deref(ex, st, r)
+    c = ex.concrete_int(i.e)
+    if isinstance(v, VecV) and c is not None and c <= len(v.items):
+        ex.store(st, r.addr, r.path, VecV(v.items[:c] + (x,) + v.items[c:], v.elem_ty))
+        return ex.ret(st, call, UNIT)
+    return None
+
+
+@model(r'^Vec::remove$')
+def m_vec_remove(ex, st, call):
+    r, i = call.args
+    v = deref(ex, st, r)
+    c = ex.concrete_int(i.e)
+    if isinstance(v, VecV) and c is not None and c < len(v.items):
+        ex.store(st, r.addr, r.path, VecV(v.items[:c] + v.items[c + 1:], v.elem_ty))
+        return ex.ret(st, call, v.items[c])
+    return None
+
+
+# ------------------------------------------------------------------------------------------------
+# association-list maps: VecV whose elem_ty is '__map__' and whose items are (key, value) tuples
+# ------------------------------------------------------------------------------------------------
+def val_eq(a, b):
+    """structural equality of two values as a z3 Bool (ints, bools, opaque tokens, structs/tuples of those)"""
+    if isinstance(a, Int) and isinstance(b, Int):
+        return a.e == b.e
+    if isinstance(a, Bool) and isinstance(b, Bool):
+        return a.e == b.e
+    if isinstance(a, Opaque) and isinstance(b, Opaque):
+        return a.id == b.id
+    if isinstance(a, Agg) and isinstance(b, Agg) and set(a.fields) == set(b.fields):
+        return z3.And([val_eq(a.fields[i], b.fields[i]) for i in a.fields] + [z3.BoolVal(True)])
+    if isinstance(a, Str) and isinstance(b, Str):
+        return s_eq(a, b)
+    unmodelled('equality of %r and %r' % (a, b))
+
+
+def is_mapv(v):
+    return isinstance(v, VecV) and v.elem_ty == '__map__'
+
+
+def map_lookup(ex, st, m, key, on_hit, on_miss):
+    """fork over which entry of the association list equals key"""
+    out = []
+    rest = st
+    for k, ent in enumerate(m.items):
+        if rest is None:
+            break
+        hit, rest = ex.split(rest, val_eq(ent.fields[0], key))
+        if hit is not None:
+            out += on_hit(hit, k)
+    if rest is not None:
+        out += on_miss(rest)
+    return out
+
+
+@model(r'^HashMap::entry$')
+def m_mapv_entry(ex, st, call):
+    r, k = call.args
+    if is_mapv(deref(ex, st, r)):
+        return ex.ret(st, call, Agg('entry', 'MapEntry', {0: r, 1: k}))
+    return None
+
+
+@model(r'^Entry::or_default$|^Entry::or_insert$|^Entry::or_insert_with$')
+def m_mapv_or_default(ex, st, call):
+    ent = call.args[0]
+    if not (isinstance(ent, Agg) and ent.ty == 'MapEntry'):
+        return None
+    r, key = ent.fields[0], ent.fields[1]
+    m = deref(ex, st, r)
+
+    def hit(s, k):
+        return ex.ret(s, call, Ref(r.addr, r.path + (('i', k), ('f', 1, None))))
+
+    def miss(s):
+        if call.norm.endswith('or_default'):
+            dv = VecV(())
+        elif call.norm.endswith('or_insert'):
+            dv = call.args[1]
+        else:
+            unmodelled('or_insert_with on an association-list map')
+        mm = deref(ex, s, r)
+        ex.store(s, r.addr, r.path, VecV(mm.items + (Agg('tuple', 'tuple', {0: key, 1: dv}),), '__map__'))
+        return ex.ret(s, call, Ref(r.addr, r.path + (('i', len(mm.items)), ('f', 1, None))))
+    return map_lookup(ex, st, m, key, hit, miss)
+
+
+@model(r'^HashMap::insert$')
+def m_mapv_insert(ex, st, call):
+    r, key, val = call.args
+    m = deref(ex, st, r)
+    if not is_mapv(m):
+        return None
+
+    def hit(s, k):
+        mm = deref(ex, s, r)
+        old = mm.items[k].fields[1]
+        items = list(mm.items)
+        items[k] = Agg('tuple', 'tuple', {0: mm.items[k].fields[0], 1: val})
+        ex.store(s, r.addr, r.path, VecV(items, '__map__'))
+        return ex.ret(s, call, ex.some(old))
+
+    def miss(s):
+        mm = deref(ex, s, r)
+        ex.store(s, r.addr, r.path, VecV(mm.items + (Agg('tuple', 'tuple', {0: key, 1: val}),), '__map__'))
+        return ex.ret(s, call, ex.none())
+    return map_lookup(ex, st, m, key, hit, miss)
+
+
+@model(r'^HashMap::remove$')
+def m_mapv_remove(ex, st, call):
+    r, kref = call.args
+    m = deref(ex, st, r)
+    if not is_mapv(m):
+        return None
+    key = deref(ex, st, kref)
+
+    def hit(s, k):
+        mm = deref(ex, s, r)
+        ex.store(s, r.addr, r.path, VecV(mm.items[:k] + mm.items[k + 1:], '__map__'))
+        return ex.ret(s, call, ex.some(mm.items[k].fields[1]))
+    return map_lookup(ex, st, m, key, hit, lambda s: ex.ret(s, call, ex.none()))
+
+
+@model(r'^HashMap::get$|^HashMap::get_mut$')
+def m_mapv_get(ex, st, call):
+    r, kref = call.args
+    m = deref(ex, st, r)
+    if not is_mapv(m):
+        return None
+    key = deref(ex, st, kref)
+    return map_lookup(ex, st, m, key, lambda s, k: ex.ret(s, call, ex.some(Ref(r.addr, r.path + (('i', k), ('f', 1, None))))),
+                      lambda s: ex.ret(s, call, ex.none()))
+
+
+@model(r'^HashMap::contains_key$')
+def m_mapv_contains(ex, st, call):
+    r, kref = call.args
+    m = deref(ex, st, r)
+    if not is_mapv(m):
+        return None
+    key = deref(ex, st, kref)
+    return map_lookup(ex, st, m, key, lambda s, k: ex.ret(s, call, Bool(True)), lambda s: ex.ret(s, call, Bool(False)))
+
+
+@model(r'^VecDeque::push_back$')
+def m_deque_push_back(ex, st, call):
+    r, x = call.args
+    v = deref(ex, st, r)
+    if isinstance(v, VecV):
+        ex.store(st, r.addr, r.path, VecV(v.items + (x,), v.elem_ty))
+        return ex.ret(st, call, UNIT)
+    return None
+
+
+@model(r'^VecDeque::push_front$')
+def m_deque_push_front(ex, st, call):
+    r, x = call.args
+    v = deref(ex, st, r)
+    if isinstance(v, VecV):
+        ex.store(st, r.addr, r.path, VecV((x,) + v.items, v.elem_ty))
+        return ex.ret(st, call, UNIT)
+    return None
+
+
+@model(r'^VecDeque::pop_front$')
+def m_deque_pop_front(ex, st, call):
+    r = call.args[0]
+    v = deref(ex, st, r)
+    if isinstance(v, VecV):
+        if not v.items:
+            return ex.ret(st, call, ex.none())
+        ex.store(st, r.addr, r.path, VecV(v.items[1:], v.elem_ty))
+        return ex.ret(st, call, ex.some(v.items[0]))
+    return None
+
+
+@model(r'^VecDeque::pop_back$')
+def m_deque_pop_back(ex, st, call):
+    r = call.args[0]
+    v = deref(ex, st, r)
+    if isinstance(v, VecV):
+        if not v.items:
+            return ex.ret(st, call, ex.none())
+        ex.store(st, r.addr, r.path, VecV(v.items[:-1], v.elem_ty))
+        return ex.ret(st, call, ex.some(v.items[-1]))
+    return None
+
+
+@model(r'^<IntoIter<.*> as Iterator>::next$|^<vec::IntoIter<.*> as Iterator>::next$')
+def m_into_iter_next(ex, st, call):
+    r = call.args[0]
+    it = deref(ex, st, r)
+    if not (isinstance(it, Agg) and it.ty == 'IntoIter'):
+        return None
+    v, pos = it.fields[0], it.fields[1]
+    if pos >= len(v.items):
+        return ex.ret(st, call, ex.none())
+    ex.store(st, r.addr, r.path, Agg('iter', 'IntoIter', {0: v, 1: pos + 1}))
+    return ex.ret(st, call, ex.some(v.items[pos]))
+
+
+_prioritise({'m_mapv_entry', 'm_mapv_or_default', 'm_mapv_insert', 'm_mapv_remove', 'm_mapv_get', 'm_mapv_contains'})
+
+
+# vec![..] macro expansion of this toolchain: Box::new_uninit + in-place array write + box_assume_init_into_vec_unsafe
+@model(r'^Box::new_uninit$')
+def m_box_new_uninit(ex, st, call):
+    a = st.alloc(Agg('struct', 'MaybeUninit', {}, lazy=True))
+    return ex.ret(st, call, ex.mk_box(Ref(a)))
+
+
+@model(r'^boxed::box_assume_init_into_vec_unsafe$|^box_assume_init_into_vec_unsafe$')
+def m_box_into_vec(ex, st, call):
+    b = call.args[0]
+    r = b.fields[0].fields[0]
+    v = ex.load(st, r.addr, r.path)
+    try:
+        arr = v.fields[1].fields[0].fields[0]
+    except (KeyError, AttributeError):
+        unmodelled('vec! expansion: unexpected MaybeUninit layout %r' % (v,))
+    items = [arr.fields[i] for i in sorted(arr.fields)]
+    return ex.ret(st, call, VecV(items))
+
+
+@model(r'^slice::into_vec$|^<\[.*\]>::into_vec$')
+def m_slice_into_vec(ex, st, call):
+    b = call.args[0]
+    if isinstance(b, Agg) and 0 in b.fields and isinstance(b.fields[0], Agg):
+        r = b.fields[0].fields.get(0)
+        if isinstance(r, Ref):
+            v = ex.load(st, r.addr, r.path)
+            if isinstance(v, Agg) and v.kind == 'array':
+                return ex.ret(st, call, VecV([v.fields[i] for i in sorted(v.fields)]))
+    return None
